@@ -181,13 +181,16 @@ func (k msgServer) AddTenantAdmin(goCtx context.Context, msg *types.MsgAddTenant
 		return nil, types.ErrInvalidTenant
 	}
 
+	// already checked in ValidateBasic
+	newAdminAddr, _ := sdk.AccAddressFromBech32(msg.NewAdmin)
+	newAdmin := newAdminAddr.String()
 	for _, admin := range tenant.Admins {
-		if admin == msg.NewAdmin {
+		if admin == newAdmin {
 			return nil, errorsmod.Wrapf(types.ErrInvalidAdmin, "admin %s already exists", msg.NewAdmin)
 		}
 	}
 
-	tenant.Admins = append(tenant.Admins, msg.NewAdmin)
+	tenant.Admins = append(tenant.Admins, newAdmin)
 	k.SetTenant(ctx, tenant)
 
 	return &types.MsgAddTenantAdminResponse{}, nil
@@ -209,8 +212,11 @@ func (k msgServer) RemoveTenantAdmin(goCtx context.Context, msg *types.MsgRemove
 		return nil, types.ErrInvalidTenant
 	}
 
+	// already checked in ValidateBasic
+	adminToRemoveAddr, _ := sdk.AccAddressFromBech32(msg.AdminToRemove)
+	adminToRemove := adminToRemoveAddr.String()
 	for i, admin := range tenant.Admins {
-		if admin == msg.AdminToRemove {
+		if admin == adminToRemove {
 			if len(tenant.Admins) == 1 {
 				return nil, errorsmod.Wrapf(types.ErrCannotRemoveAdmin, "cannot remove the last admin")
 			}
